@@ -2,15 +2,16 @@
 # C06: regenerate the nondeterminism-seam overlay from /repo's current tree, build the instrumented explorer with
 # it (/repo is not modified) and run it. Called by ./check C06 <tier> and ./check replay <file> for C06 records.
 export GOFLAGS=-mod=mod GOPROXY=off GOSUMDB=off GOTOOLCHAIN=local
-cd /verif || exit 2
+cd "${VERIF_DIR:-/verif}" || exit 2
+REPO=${VERIF_REPO:-/repo}
 mkdir -p bin/seams
 if [ ! -x bin/seamgen ] || [ tools/seamgen/main.go -nt bin/seamgen ]; then
   (cd tools/seamgen && go build -o ../../bin/seamgen .) || { echo "HARNESS-ERROR seamgen build failed"; exit 2; }
 fi
 rm -rf bin/seams/src
-bin/seamgen /repo /verif/bin/seams /verif/tools/verifrt/rt.go > bin/seams/log.txt 2>&1 || { cat bin/seams/log.txt; echo "HARNESS-ERROR seamgen could not instrument the current tree"; exit 2; }
+bin/seamgen "$REPO" "$PWD/bin/seams" "$PWD/tools/verifrt/rt.go" > bin/seams/log.txt 2>&1 || { cat bin/seams/log.txt; echo "HARNESS-ERROR seamgen could not instrument the current tree"; exit 2; }
 tmp=bin/mc-seams.$$
-if ! (cd harness && go build -overlay /verif/bin/seams/overlay.json -o ../$tmp ./cmd/c06) > bin/seams/build.log 2>&1; then
+if ! (cd harness && go build -overlay "$PWD/../bin/seams/overlay.json" -o ../$tmp ./cmd/c06) > bin/seams/build.log 2>&1; then
   cat bin/seams/build.log; rm -f $tmp; echo "HARNESS-ERROR instrumented build failed"; exit 2
 fi
 mv -f $tmp bin/mc-seams
